@@ -21,7 +21,7 @@ ASSUMPTIONS = [
 CASES = {"quick": 24000, "thorough": 600000}
 MIN_CASES = {"quick": 6000, "thorough": 200000}
 REQUIRED_CLASSES = ["in_situ", "disjoint", "edge_touch", "corner_touch", "nested", "crossing", "identical", "other_region", "near_miss"]
-REQUIRED_COUNTERS = ["in_situ_workloads_completed", "moved_in_place_judged", "area_overlap_judged", "mul_judged", "is_inside_judged", "point_inside_judged", "touches_judged",
+REQUIRED_COUNTERS = ["tolerance_set_with_explicit_area", "in_situ_workloads_completed", "moved_in_place_judged", "area_overlap_judged", "mul_judged", "is_inside_judged", "point_inside_judged", "touches_judged",
                      "split_judged", "grid_judged", "cuttable_true_judged", "cuttable_false_judged", "overlap_judged"]
 
 RELS = ["disjoint", "edge_touch", "corner_touch", "nested", "crossing", "identical", "other_region", "near_miss", "random"]
@@ -211,8 +211,21 @@ def _check_pair(case, ctx):
     g = _g
     ext = case["ext"]
     scale = max(ext)
-    g.Rectangle.set_epsilon(1e-11 * min(ext))
-    eps_d, eps_a = F(g.Rectangle.distance_epsilon()), F(g.Rectangle.area_epsilon())
+    import math as _math
+    want_d = 1e-11 * min(ext)
+    want_a = _math.sqrt(want_d)
+    g.Rectangle.undefine_epsilon()
+    if int(abs(case["a"][0]) * 7 + case["grid"][0]) % 3 == 0:
+        g.Rectangle.set_epsilon(want_d, want_a)          # both tolerances given explicitly
+        ctx.count("tolerance_set_with_explicit_area")
+    else:
+        g.Rectangle.set_epsilon(want_d)
+    ok_d, got_d = ctx.call(g.Rectangle.distance_epsilon)
+    ok_a, got_a = ctx.call(g.Rectangle.area_epsilon)
+    if not (ok_d and ok_a) or got_d != want_d or abs(got_a - want_a) > 1e-15 * want_a:
+        ctx.violation("tolerance_accessors", f"set_epsilon({want_d!r}[, {want_a!r}]) but distance_epsilon()={got_d!r}, area_epsilon()={got_a!r}")
+        g.Rectangle.set_epsilon(want_d)
+    eps_d, eps_a = F(want_d), F(want_a)
     tl = F(1e-9) * F(scale)
     ta = F(1e-9) * F(scale) ** 2
     # binary-exact families: every float operation of the code is exact, so there is no gray zone
